@@ -10,6 +10,8 @@ mod verif_kani_numbers {
     fn k1_digit() {
         let b: u8 = kani::any();
         assert!(DIGIT.contains_token(b) == o_class::digit(b));
+        // bytes accepted by this table reach `from_utf8_unchecked`: they must be ASCII (unsafe precondition)
+        assert!(!DIGIT.contains_token(b) || b < 0x80, "table feeding from_utf8_unchecked admits a non-ASCII byte");
         kani::cover!(DIGIT.contains_token(b));
         kani::cover!(!DIGIT.contains_token(b));
     }
@@ -18,6 +20,8 @@ mod verif_kani_numbers {
     fn k1_hexdig() {
         let b: u8 = kani::any();
         assert!(HEXDIG.contains_token(b) == o_class::hexdig(b));
+        // bytes accepted by this table reach `from_utf8_unchecked`: they must be ASCII (unsafe precondition)
+        assert!(!HEXDIG.contains_token(b) || b < 0x80, "table feeding from_utf8_unchecked admits a non-ASCII byte");
         kani::cover!(HEXDIG.contains_token(b));
         kani::cover!(!HEXDIG.contains_token(b));
     }
@@ -26,6 +30,8 @@ mod verif_kani_numbers {
     fn k1_digit1_9() {
         let b: u8 = kani::any();
         assert!(DIGIT1_9.contains_token(b) == o_class::digit1_9(b));
+        // bytes accepted by this table reach `from_utf8_unchecked`: they must be ASCII (unsafe precondition)
+        assert!(!DIGIT1_9.contains_token(b) || b < 0x80, "table feeding from_utf8_unchecked admits a non-ASCII byte");
         kani::cover!(DIGIT1_9.contains_token(b));
         kani::cover!(!DIGIT1_9.contains_token(b));
     }
@@ -34,6 +40,8 @@ mod verif_kani_numbers {
     fn k1_digit0_7() {
         let b: u8 = kani::any();
         assert!(DIGIT0_7.contains_token(b) == o_class::digit0_7(b));
+        // bytes accepted by this table reach `from_utf8_unchecked`: they must be ASCII (unsafe precondition)
+        assert!(!DIGIT0_7.contains_token(b) || b < 0x80, "table feeding from_utf8_unchecked admits a non-ASCII byte");
         kani::cover!(DIGIT0_7.contains_token(b));
         kani::cover!(!DIGIT0_7.contains_token(b));
     }
@@ -42,6 +50,8 @@ mod verif_kani_numbers {
     fn k1_digit0_1() {
         let b: u8 = kani::any();
         assert!(DIGIT0_1.contains_token(b) == o_class::digit0_1(b));
+        // bytes accepted by this table reach `from_utf8_unchecked`: they must be ASCII (unsafe precondition)
+        assert!(!DIGIT0_1.contains_token(b) || b < 0x80, "table feeding from_utf8_unchecked admits a non-ASCII byte");
         kani::cover!(DIGIT0_1.contains_token(b));
         kani::cover!(!DIGIT0_1.contains_token(b));
     }
